@@ -21,6 +21,7 @@ LEVEL_TEXT = (
     "scheduler_pickled.pickle holds (the declared type of the object dumped by save) is what the plotting reader's "
     "consumer expects - pickle.load returns Any, so no type checker sees this - and the reader keeps no cache keyed by the "
     "folder name. Decided for all line-ups and replacement sequences because none of the rules depends on values."
+    " Every store of the sampler line-up takes a private copy (a caller's list mutated later would renumber labels), and the scheduler pickle is written before the labels that refer to it."
 )
 TECHNIQUE = "guarded-store / monotonicity rule on the id table + persisted-domain membership + pickle channel typing across writer and reader"
 
